@@ -20,8 +20,8 @@ requests
   `gauss <n> A(n·n) b(n)`                                 the stand-in linear solver
 replies
   `ok d(n·nf) v a` (complex, row major) | `ok psd(q·nf real) rms(q real)` | `ok x(n)` | `error <kind>` | `bad-op`
-  state: `ok unc | nonrf | rb | el | _rb | _el [| kdof | mRows | state _rb | state _el | imrb | invm | rbMassRows | elRows]`
-  layout: `ok nonrf | rb | el | _rb | _el | kdof | mRows | state _rb | state _el | imrb | invm | rbMassRows | elRows`
+  state: `ok unc | nonrf | rb | el | _rb | _el [| kdof | mRows | state _rb | state _el | imrb | invm | rbMassRows | elRows | rbDampRows]`
+  layout: `ok nonrf | rb | el | _rb | _el | kdof | mRows | state _rb | state _el | imrb | invm | rbMassRows | elRows | rbDampRows`
           (index lists separated by `|`, `-` for an absent one) -/
 open PyYetiVerif.Freq
 
@@ -178,7 +178,8 @@ def pLayout : P String := do
     | some st =>
       pure ("ok " ++ " | ".intercalate [fmtIdx lay.nonrf, fmtIdx lay.rb, fmtIdx lay.el, fmtIdx lay.rb_,
         fmtIdx lay.el_, fmtIdx st.kdof, fmtIdx st.mRows, fmtIdx st.rb_, fmtIdx st.el_, fmtOIdx st.imrb,
-        fmtOIdx st.invm, fmtOIdx (rbMassRows st (uncReal == 1)), fmtOIdx (elRows st)])
+        fmtOIdx st.invm, fmtOIdx (rbMassRows st (uncReal == 1)), fmtOIdx (elRows st),
+        fmtOIdx (rbDampRows st (uncReal == 1))])
 
 /-- constructor bookkeeping of a whole problem: the model's own rigid-body detection, `mkLayout`, and
 for `su` the state after `SolveUnc.__init__` -/
@@ -199,7 +200,7 @@ def pState (which : String) : P String := do
       | some st =>
         pure ("ok " ++ " | ".intercalate (base ++ [fmtIdx st.kdof, fmtIdx st.mRows, fmtIdx st.rb_,
           fmtIdx st.el_, fmtOIdx st.imrb, fmtOIdx st.invm, fmtOIdx (rbMassRows st uncReal),
-          fmtOIdx (elRows st)]))
+          fmtOIdx (elRows st), fmtOIdx (rbDampRows st uncReal)]))
 
 def answer (line : String) : String :=
   let ws := (line.splitOn " ").filter (· ≠ "")
